@@ -38,7 +38,7 @@ TECHNIQUE = "TLA+ model (TLC safety + liveness) + trace validation of recorded h
 DESIGN_REF = "3/C19"
 
 QUICK_CFGS = ["MC_Actor.cfg", "MC_Actor_call.cfg", "MC_Actor_fail.cfg", "MC_Actor_registry.cfg", "MC_Actor_sup.cfg",
-              "MC_Actor_group.cfg", "MC_Actor_group_join.cfg", "MC_Actor_live.cfg", "MC_Actor_call_fixed.cfg"]
+              "MC_Actor_group.cfg", "MC_Actor_group_join.cfg", "MC_Actor_live.cfg"]
 THOROUGH_CFGS = ["MC_Actor_thorough.cfg", "MC_Actor_call.cfg", "MC_Actor_fail_thorough.cfg", "MC_Actor_registry_thorough.cfg",
                  "MC_Actor_sup.cfg", "MC_Actor_group_thorough.cfg", "MC_Actor_group_join.cfg", "MC_Actor_live.cfg",
                  "MC_Actor_call_fixed.cfg", "MC_Actor_call_live_thorough.cfg", "MC_Actor_fail_live_thorough.cfg"]
@@ -454,7 +454,9 @@ def model_check(run, tier):
                 cover[a] = (od + d, ot + t)
         rs = strict.result()
         sany.result()
-    zero = sorted(a for a, (d, t) in cover.items() if t == 0 and a not in TRACE_ONLY)
+    # the repaired close (DrainOnClose) is only exercised by MC_Actor_call_fixed.cfg, which runs in the thorough tier
+    skip = TRACE_ONLY | ({"CloseRxDrains"} if tier == "quick" else set())
+    zero = sorted(a for a, (d, t) in cover.items() if t == 0 and a not in skip)
     if zero:
         raise vlib.ToolError("Actor: actions never taken in any configuration: %s" % zero)
     if not cover:
@@ -464,7 +466,7 @@ def model_check(run, tier):
         raise vlib.ToolError("strict control: expected CallNeverHangs to be violated by CloseRxKeepsQueue, got %s %s" %
                              (rs.violated, rs.error))
     run.note("strict_control", "CallNeverHangs violated by the model of the code as it is (CloseRxKeepsQueue); "
-                               "holds with DrainOnClose (MC_Actor_call_fixed.cfg)")
+                               "holds with DrainOnClose (MC_Actor_call_fixed.cfg, thorough tier)")
     run.note("model_actions_covered", len(cover))
 
 
@@ -600,13 +602,13 @@ def run(run, tier, replay):
             return
         import time
         t0 = time.time()
-        # 1. model
-        model_check(run, tier)
-        vlib.log("  model checking done after %.0fs" % (time.time() - t0))
+        # 1. model (runs concurrently with the build and the recording; joined before the verdict)
+        mpool = concurrent.futures.ThreadPoolExecutor(max_workers=1)
+        mfut = mpool.submit(model_check, run, tier)
         # 2. record histories from the real crate
         vlib.cargo_build("hactor", ["record_actor"])
         vlib.log("  harness built after %.0fs" % (time.time() - t0))
-        batches = [(vlib.seed(), 120)] if tier == "quick" else [(vlib.seed() * 100 + k, 300) for k in range(8)]
+        batches = [(vlib.seed(), 100)] if tier == "quick" else [(vlib.seed() * 100 + k, 240) for k in range(5)]
         total_runs = total_events = 0
         all_drift = []
         parked = 0
@@ -628,6 +630,9 @@ def run(run, tier, replay):
                 vlib.log("recorder stopped early after %d runs (see reported problem)" % summary["cases"])
             for r in runs[:1]:
                 run.sample({"run": r[0].get("run"), "events": len(r), "head": r[1:9]}, limit=2)
+        mfut.result()
+        mpool.shutdown()
+        vlib.log("  model checking done after %.0fs" % (time.time() - t0))
         run.add_traces(total_runs - len(all_drift))
         run.note("recorded_runs", total_runs)
         run.note("recorded_events", total_events)
